@@ -98,7 +98,7 @@ def task_doc(uid, pilot, cores):
 #
 def gen_case(rng, sched):
 
-    pids   = ['pilot.%04d' % i for i in range(rng.randint(1, 3))]
+    pids   = ['pilot.%04d' % i for i in range(rng.choice([1, 2, 2, 3, 3, 4]))]
     cores  = {p: rng.choice([1, 2, 4]) for p in pids}
     added  = set()
     ever   = set()
@@ -107,10 +107,13 @@ def gen_case(rng, sched):
     n_t    = 0
     forwarded_to = dict()
 
+    # `churn` histories remove and re-add pilots often (also several pilots
+    # per command, in any order) while tasks are between two notifications
+    churn = rng.random() < 0.35
     for _ in range(rng.randint(4, 30)):
         kinds = ['submit'] * 4 + ['pump'] * 4 + ['pstate'] * 3
-        if len(added) < len(pids): kinds += ['add'] * 3
-        if added: kinds += ['remove']
+        if len(added) < len(pids): kinds += ['add'] * (5 if churn else 3)
+        if added: kinds += ['remove'] * (4 if churn else 1)
         if n_t: kinds += ['tfinal'] * 3
         k = rng.choice(kinds)
         if k == 'submit':
@@ -126,9 +129,11 @@ def gen_case(rng, sched):
             added.update(ps); ever.update(ps)
             events.append(['add', ps])
         elif k == 'remove':
-            p = rng.choice(sorted(added))
-            added.discard(p)
-            events.append(['remove', [p]])
+            ps = rng.sample(sorted(added), rng.randint(1, len(added))
+                                           if rng.random() < 0.4 else 1)
+            rng.shuffle(ps)
+            added.difference_update(ps)
+            events.append(['remove', ps])
         elif k == 'pstate':
             p = rng.choice(pids)
             r = rng.random()
@@ -143,7 +148,8 @@ def gen_case(rng, sched):
             events.append(['pstate', p, s])
         elif k == 'tfinal':
             events.append(['tfinal', rng.randint(1, 4),
-                           rng.choice(['full', 'full', 'partial'])])
+                           rng.choice(['full', 'full', 'partial', 'mid',
+                                       'mid'])])
         else:
             events.append(['pump', rng.randint(1, 4)])
     return {'scheduler': sched, 'pids': pids, 'cores': cores, 'events': events,
@@ -175,6 +181,9 @@ class Run(object):
 
         # independent model, fed from what was actually delivered
         self.role    = dict()          # pid -> 'added' | 'removed'
+        self.epoch     = dict()        # pid -> number of times it was added
+        self.fwd_epoch = dict()        # uid -> epoch of its pilot at assignment
+        self.released  = set()         # uids no longer counted as usage
         self.pstate  = dict()          # pid -> state the scheduler was told
         self.used    = dict()          # pid -> cores assigned by backfilling
         self.tasks   = dict()          # uid -> (named pilot, cores)
@@ -275,6 +284,20 @@ class Run(object):
                 self.viol('backfilling-beyond-hwm', '%s -> %s with used %d >= '
                           'hwm %d' % (uid, pid, used, hwm))
             self.used[pid] = used + cores
+            self.fwd_epoch[uid] = self.epoch.get(pid)
+
+    def release(self, uid, pid, named, cores):
+        '''model of the usage figure: a task the scheduler assigned counts
+        against its pilot from the assignment until the first notification
+        which shows it past execution, once, and only within the period
+        (add .. remove) in which it was assigned'''
+        if named or self.case['scheduler'] != 'backfilling':
+            return
+        if uid in self.released:
+            return
+        self.released.add(uid)
+        if self.fwd_epoch.get(uid) == self.epoch.get(pid):
+            self.used[pid] = self.used.get(pid, 0) - cores
 
     # -- events ----------------------------------------------------------------
     def pump(self, n, tag):
@@ -313,6 +336,7 @@ class Run(object):
                     self.role[p] = 'added'
                     if case['scheduler'] == 'backfilling':
                         self.used[p] = 0       # the scheduler restarts its count
+                        self.epoch[p] = self.epoch.get(p, 0) + 1
                 self.drain(('add',))
             elif k == 'remove':
                 self.drain()
@@ -348,8 +372,16 @@ class Run(object):
                         d = task_doc(uid, named, cores)
                         d.update({'pilot': pid, 'state': rps.DONE})
                         self.finished.add(uid)
-                        if not named and self.case['scheduler'] == 'backfilling':
-                            self.used[pid] = self.used.get(pid, 0) - cores
+                        self.release(uid, pid, named, cores)
+                    elif form == 'mid':
+                        # the agent's output stager hands the task back to the
+                        # client with its full description ('$all'), before
+                        # the final notification
+                        d = task_doc(uid, named, cores)
+                        d.update({'pilot': pid,
+                                  'state': rps.TMGR_STAGING_OUTPUT_PENDING})
+                        self.release(uid, pid, named, cores)
+                        res.count('full_intermediate_notifications')
                     else:
                         d = {'uid': uid, 'type': 'task',
                              'state': rps.AGENT_STAGING_OUTPUT_PENDING}
@@ -376,8 +408,7 @@ class Run(object):
                 d = task_doc(uid, named, cores)
                 d.update({'pilot': pid, 'state': rps.DONE})
                 self.finished.add(uid)
-                if not named and self.case['scheduler'] == 'backfilling':
-                    self.used[pid] = self.used.get(pid, 0) - cores
+                self.release(uid, pid, named, cores)
                 docs.append(d)
             self.net.publish('mem://c/%s' % rpc.STATE_PUBSUB, rpc.STATE_PUBSUB,
                              {'cmd': 'update', 'arg': docs}, who='driver')
